@@ -6,7 +6,7 @@ import ast
 from typing import Any, Dict, List, Optional, Tuple
 
 from ..core import Ctx
-from ..interp import ALL, Dual, EnumVal, Event, Interp, LoopSummary, PathResult, State, Tup, View, as_view, NONE
+from ..interp import ALL, Dual, EnumVal, Event, Interp, LoopSummary, RangeVal, PathResult, State, Tup, View, as_view, NONE
 from ..program import AnalysisError, FuncInfo, Program
 from ..roles import get_roles
 from ..terms import Aff, Facts, K, ONE, S, ZERO, atoms_in, cmp_cond, negate, show_cond, show_val
@@ -767,12 +767,39 @@ def rule_cost_table(ctx: Ctx, prog: Program) -> None:
                     if e.kind != "index" or e.root != prm or id(e.node) in seen:
                         continue
                     base, new = e.value
-                    comps = [c for c in list(base) + list(new) if isinstance(c, Aff)]
+                    # effective position in the table: an index applied to a slice taken earlier (costs = table[d, lo:hi + 1]; costs[v]) addresses
+                    # column lo + v of the table
+                    eff: List[Any] = []
+                    for c in base:
+                        eff.append(c if isinstance(c, Aff) else ("slice", c[1] if isinstance(c, tuple) and len(c) > 1 and isinstance(c[1], Aff) else ZERO))
+                    for c in new:
+                        k_ = next((i for i, x in enumerate(eff) if isinstance(x, tuple)), None)
+                        if k_ is not None and isinstance(c, Aff):
+                            eff[k_] = eff[k_][1] + c
+                        elif k_ is not None:
+                            eff[k_] = ("slice", (eff[k_][1] + c[1]) if isinstance(c, tuple) and len(c) > 1 and isinstance(c[1], Aff) else eff[k_][1])
+                        else:
+                            eff.append(c if isinstance(c, Aff) else ("slice", c[1] if isinstance(c, tuple) and len(c) > 1 and isinstance(c[1], Aff) else ZERO))
+                    comps = [c for c in eff if isinstance(c, Aff)]
                     if len(comps) < 2:
                         continue
                     seen.add(id(e.node))
                     n += 1
                     a, b = comps[0], comps[1]
+                    # a column computed from the index of a scan over the domain's values stays inside the scanned range
+                    scan = next((l for l in _all_loops_local(pr.state.trace) + [l2 for r2 in res for l2 in _all_loops_local(r2.state.trace)]
+                                 if l.index is not None and l.index.single_atom() is not None and l.index.single_atom() in atoms_in(b)
+                                 and isinstance(l.iter_value, RangeVal)), None)
+                    if scan is not None and b != scan.index:
+                        rv = scan.iter_value
+                        inside = pr.state.facts.entails(cmp_cond(">=", b, rv.start)) and pr.state.facts.entails(cmp_cond("<", b, rv.stop))
+                        src0 = ast.unparse(e.node) if e.node is not None else "?"
+                        if not inside:
+                            ctx.violation("R-COST-TABLE", ent.path, ent.name, f"column-outside-scan:{''.join(src0.split())}", f"{ent.path}:{getattr(e.node, 'lineno', 0)}",
+                                          f"{ent.name} scans the values {show_val(rv.start)} .. {show_val(rv.stop)} - 1 of the domain but reads column {show_val(b)} of its "
+                                          f"table in {src0} (an index applied to a slice is relative to the slice): the cost read is that of another value, and the "
+                                          "access runs past the row when the domain does not start at 0")
+                            continue
 
                     def is_domain(x: Aff) -> bool:
                         at = x.single_atom()
